@@ -183,6 +183,10 @@ class Edits(Stream):
             yield {'init': init, 'ops': gen_ops(rng, store, n)}
 
     def impl(self, case):
+        # a second configuration of the same kind, created BEFORE the edits, and its pristine snapshot: edits of one
+        # configuration must never show up in another one or in a configuration created afterwards (seeded change C18-1)
+        other = make_cfg(case['init'])
+        pristine = _cfg.safe_wire(other.store)
         cfg = make_cfg(case['init'])
         shadow = _cfg.deep(cfg.store)
         init = _cfg.wire(cfg.store)
@@ -195,7 +199,9 @@ class Edits(Stream):
             sres.append(apply_nested(shadow, op) if len(op['k'].split('/')) <= 3 else None)
         return {'init': init, 'results': res, 'nested': sres, 'store': _cfg.safe_wire(cfg.store),
                 'nested_store': _cfg.safe_wire(shadow), 'failed_ops_left_store_unchanged': all(unchanged),
-                'keys': list(cfg), 'len': len(cfg)}
+                'keys': list(cfg), 'len': len(cfg),
+                'other_unchanged': _cfg.safe_wire(other.store) == pristine,
+                'fresh_is_pristine': _cfg.safe_wire(make_cfg(case['init']).store) == pristine}
 
     def ops(self, case, out):
         if isinstance(out, ImplError):
@@ -239,6 +245,10 @@ class Edits(Stream):
                               '%s vs %s' % (out['store'], out['nested_store'])))
         if not out['failed_ops_left_store_unchanged']:
             fs.append(Failure('failed-edit-changed-the-store'))
+        if not out.get('other_unchanged', True):
+            fs.append(Failure('edit-leaks-into-another-config', 'a configuration created before the edits changed with them'))
+        if not out.get('fresh_is_pristine', True):
+            fs.append(Failure('edit-leaks-into-later-config', 'a configuration created after the edits is not the pristine one'))
         final = _cfg.unwire(out['store']) if not out['store'].startswith('?') else None
         if isinstance(final, dict) and (out['keys'] != list(final.keys()) or out['len'] != len(final)):
             fs.append(Failure('mapping-interface-disagrees-with-store', '%s / %s' % (out['keys'], out['len'])))
